@@ -18,10 +18,11 @@ arms are tied to M and to each other by the dual-arm streams of harness/c04.py. 
   and `*_agrees` is the bookkeeping of a per-class differential test: the content is that the `verdict.*` streams run one
   representative input of every class on each arm of the real code and find the table's entry; the Lean equality then
   only records that no class was found on which the arms differ (for silent-payment scanning: that exactly one was).
-  Deductive content exists for four curve-level entry points (`mult`, `bytes_from_prv_key_int`, `diffie_hellman`,
-  `_tweak_add_var`): their bindings-arm outcome is COMPUTED from the generated guards, the established facts and the
-  C entry point's documented contract (Model/C04/Derived.lean), and proved equal to the Python arm's table
-  (`*_bind_derived_agrees`), and to the hand-written `bind` the streams validate (`*_bind_table_is_derived`).
+  Deductive content exists for THREE curve-level entry points (`mult`, `bytes_from_prv_key_int`, `diffie_hellman`):
+  their bindings-arm outcome is COMPUTED from the generated guards, the generated established facts and the C entry
+  point's documented contract (Model/C04/Derived.lean) and proved equal to the Python arm's table
+  (`*_bind_derived_agrees`): a widened guard or a dropped fact breaks the equality.  `_tweak_add_var` is derived the
+  same way but its agreement holds for ANY guard (`tweak_add_any_guard_agrees`): the handler, not the guard, carries it.
 * **T3** the switch writes the flag and nothing else: the code fact is `set_serving_writes_only_the_flag` (names read off
   the AST); lemmas about the hand-written state-machine model are in Proofs/C04/Switch.lean and are not counted here.
 -/
@@ -103,7 +104,7 @@ theorem mult_x_out_of_range_refused_before_dispatch (m : Scalar) :
 establish and the C contract equals the Python arm on every class -/
 theorem mult_bind_derived_agrees (m : Scalar) (q : Point) : Mult.bindDerived m q = Mult.py m q := by
   cases m <;> cases q <;> decide
-/-- … and is the hand-written table the `verdict.mult` stream validates against the real code -/
+/-- … and the hand-written table says the same (the `verdict.mult` stream compares the real code with `bindDerived`) -/
 theorem mult_bind_table_is_derived (m : Scalar) (q : Point) : Mult.bind m q = Mult.bindDerived m q := by
   cases m <;> cases q <;> decide
 theorem pubkey_bind_derived_agrees (q : Scalar) : PubKey.bindDerived q = PubKey.py q ∧ PubKey.bind q = PubKey.bindDerived q := by
@@ -113,6 +114,14 @@ theorem dh_bind_derived_agrees (d : Scalar) (q : Point) : Dh.bindDerived d q = D
 theorem tweak_add_bind_derived_agrees (t : Tweak) (p : Point) :
     TweakAdd.bindDerived t p = TweakAdd.py t p ∧ TweakAdd.bind t p = TweakAdd.bindDerived t p := by
   cases t <;> cases p <;> decide
+/-- NOT an obligation on the guard: `_tweak_add_var`'s call stands inside `suppress(ValueError)`, so the bindings arm
+agrees with the Python arm for EVERY dispatch guard — widening it changes speed, not answers.  (What it does depend on
+is the established `require_on_curve`: see `factsOf` in Model/C04/Derived.lean.) -/
+theorem tweak_add_any_guard_agrees (g : Atoms → Bool) (t : Tweak) (p : Point) :
+    TweakAdd.bindWith g t p = TweakAdd.py t p := by
+  cases t <;> cases p <;>
+    simp only [TweakAdd.bindWith, TweakAdd.py, Point.requireOnCurve] <;> (try rfl) <;>
+    (split <;> first | rfl | (simp only [atomsScalarPoint, factsOf] <;> decide))
 
 theorem tweak_add_agrees (t : Tweak) (p : Point) : TweakAdd.py t p = TweakAdd.bind t p := by
   cases t <;> cases p <;> rfl
